@@ -48,9 +48,7 @@ Proof.
   unfold extract_int, in_range. destruct ty; intro H.
   - destruct ((0 <=? z) && (z <? two64)) eqn:E1.
     + assert (Hv : v = z) by congruence. subst v. exact E1.
-    + destruct ((- two64 <? z) && (z <? 0)) eqn:E2; [|discriminate H].
-      assert (Hv : v = two64 + z) by congruence. subst v.
-      b2p. apply andb_true_iff. split; [apply Z.leb_le | apply Z.ltb_lt]; lia.
+    + discriminate H.
   - destruct ((int_min <=? z) && (z <? two31)) eqn:E1; [|discriminate H].
     assert (Hv : v = z) by congruence. subst v. exact E1.
   - destruct ((- two63 <=? z) && (z <? two63)) eqn:E1; [|discriminate H].
@@ -65,7 +63,7 @@ Qed.
 (* the boundary tokens of the sweep: what each one becomes for each C type *)
 Lemma parse_boundary_tokens :
   parse_int TSize (Some (TokInt 0)) = ZVal 0 /\
-  parse_int TSize (Some (TokInt (-1))) = ZVal (two64 - 1) /\
+  parse_int TSize (Some (TokInt (-1))) = ZFail /\
   parse_int TInt (Some (TokInt (-1))) = ZVal (-1) /\
   parse_int TInt (Some (TokInt 2147483647)) = ZVal 2147483647 /\
   parse_int TInt (Some (TokInt 4294967296)) = ZFail /\
